@@ -246,6 +246,17 @@ def guarded_bindings(rep: Report, prog: Program, resolver: Resolver) -> None:
                 key_names = {x.id for x in ast.walk(tgt.slice) if isinstance(x, ast.Name)}
                 mentions_reg = any(location_of(prog, resolver, fi, x) == w.location for e in exprs for x in ast.walk(e)
                                    if isinstance(x, (ast.Name, ast.Attribute)))
+                if not mentions_reg and fi.cls:
+                    # the test may sit in a one-expression predicate of the class: `self._name_taken_by_another(name)`
+                    for c_ in ast.walk(g.test):
+                        if isinstance(c_, ast.Call) and isinstance(c_.func, ast.Attribute) and isinstance(c_.func.value, ast.Name) \
+                                and c_.func.value.id in ("self", "cls", fi.cls) and f"{fi.cls}.{c_.func.attr}" in prog.functions:
+                            hfi_ = prog.functions[f"{fi.cls}.{c_.func.attr}"]
+                            hb_ = [x for x in hfi_.node.body if not (isinstance(x, ast.Expr) and isinstance(x.value, ast.Constant))]  # type: ignore[attr-defined]
+                            if len(hb_) == 1 and isinstance(hb_[0], ast.Return) and hb_[0].value is not None \
+                                    and any(location_of(prog, resolver, hfi_, x) == w.location for x in ast.walk(hb_[0].value)
+                                            if isinstance(x, (ast.Name, ast.Attribute))):
+                                mentions_reg = True
                 if not (mentions_reg and key_names and key_names <= names):
                     continue
                 # position: the guard's outermost enclosing `if` dominates the store, and the guard runs under
